@@ -95,6 +95,15 @@ func controlExpectations() []traceCase {
 		traceCase{"n = 0; function next() { n = n + 1; rec(n); return n; } switch (1) { case next(), next() { rec(\"hit\"); } case next() { rec(\"second\"); } } return n;", tr("1", "hit"), "V:INTEGER:" + hexs("1")},
 		traceCase{"switch (3) { case 1, 1, 3, 3 { rec(\"a\"); } case 3 { rec(\"b\"); } default { rec(\"d\"); } } return 0;", tr("a"), "V:INTEGER:" + hexs("0")},
 	)
+	// a case matches first of all when it has the same type and text as the value - a regexp value and an identical
+	// regexp case included, whether or not the pattern matches its own text
+	out = append(out,
+		traceCase{"p = /^a+$/; switch (p) { case /^a+$/ { rec(\"same\"); } default { rec(\"d\"); } } return 1;", tr("same"), "V:INTEGER:" + hexs("1")},
+		traceCase{"p = /ab/; switch (p) { case /ab/ { rec(\"same\"); } default { rec(\"d\"); } } return 1;", tr("same"), "V:INTEGER:" + hexs("1")},
+		traceCase{"p = /^a+$/; switch (p) { case /^b+$/ { rec(\"other\"); } case /^a+$/ { rec(\"same\"); } default { rec(\"d\"); } } return 1;", tr("same"), "V:INTEGER:" + hexs("1")},
+		traceCase{"switch (\"aaa\") { case \"aaa\" { rec(\"lit\"); } case /^a+$/ { rec(\"re\"); } } return 1;", tr("lit"), "V:INTEGER:" + hexs("1")},
+		traceCase{"switch (\"/^a+$/\") { case /^a+$/ { rec(\"re\"); } default { rec(\"d\"); } } return 1;", tr("d"), "V:INTEGER:" + hexs("1")},
+	)
 	// a switch that never tests its value (only default blocks, or none) does not evaluate it either, and leaves
 	// nothing behind - also inside a loop
 	out = append(out,
